@@ -308,6 +308,12 @@ def sign_completion(ctx, repo):
         if not isinstance(loop, _a.For) or not isinstance(loop.target, _a.Name):
             continue
         it = cn.expand(loop.iter)
+        if isinstance(it, _a.Name):
+            # a module-level (or class-level) constant table
+            mdefs = [s_.value for s_ in fi.module.tree.body + (at.node.body if hasattr(at, "node") else [])
+                     if isinstance(s_, _a.Assign) and len(s_.targets) == 1 and isinstance(s_.targets[0], _a.Name) and s_.targets[0].id == it.id]
+            if len(mdefs) == 1:
+                it = mdefs[0]
         if not (isinstance(it, (_a.List, _a.Tuple)) and it.elts and all(isinstance(x, (_a.List, _a.Tuple)) for x in it.elts)):
             continue
         for st in _a.walk(loop):
